@@ -112,6 +112,8 @@ def capacity(ncfg):
     cap = ncfg.get("cap")
     if cap in (None, "inf") or cap == INF:
         return INF
+    if node_kind(ncfg) == "ps" and isinstance(ncfg.get("c"), int):
+        return ncfg["c"] + cap          # processor sharing: number_of_servers is the sharing capacity
     if node_kind(ncfg) != "fixed":
         return None   # not a constant: the statement does not define it
     return ncfg["c"] + cap
